@@ -354,6 +354,38 @@ def cfg_checks(ctx, binp, spans):
     return nbad
 
 
+def json_float_checks(ctx, binp):
+    """S5: with serde_json's float_roundtrip feature every finite f64 must print (ryu, shortest round-tripping decimal) and parse
+    back (correctly rounded) to the same bits -- random bit patterns, subnormals, 17-digit values, 4-decimal values, huge
+    magnitudes, boundary values, hard decimal strings (vs Rust's correctly rounded std parser), whole configurations with
+    arbitrary finite fields.  Also records what happens to NaN / infinity."""
+    n = 200000 if ctx.tier == "quick" else 2000000
+    obs = run_harness(ctx, binp, ["c16", "json", ctx.seed, n])
+    o = next((x for x in obs if x.get("kind") == "json_floats"), None)
+    if o is None:
+        ctx.violation("S5", "harness printed no JSON float record", {"kind": "crash"}, {}, found_input=False)
+        return
+    total = sum(o["counts"].values()) + o["hard_strings"] + o["configs"]
+    ctx.cov["evaluations"] += total
+    ctx.cov["distinct_nontrivial"] += total
+    ctx.count("json_float_roundtrips", total)
+    ctx.cov["json_float_classes"] = o["counts"]
+    ctx.cov["json_nonfinite_behaviour"] = o["nonfinite"]
+    if o["bad"] or o["fails"]:
+        f = o["fails"][0] if o["fails"] else {}
+        ctx.violation("S5", f"a finite f64 does not survive serde_json to_string/from_str: {o['bad']} of {total} "
+                      f"(first: {f.get('text')} [{f.get('class')}])", {"kind": "json_float_roundtrip", "class": f.get("class", "?")},
+                      {"fails": o["fails"], "value_bits": f.get("x"), "text": f.get("text")})
+    for h in o["hard_bad"][:3]:
+        ctx.violation("S5", f"serde_json::from_str({h['text']!r}) differs from the correctly rounded value", {"kind": "json_float_parse"}, h)
+    for c in o["config_bad"][:2]:
+        ctx.violation("S5", "a configuration with arbitrary finite numbers does not survive to_string/from_str",
+                      {"kind": "json_lossy", "which": "arbitrary_finite_fields", "field": "?"}, c)
+    nf = o["nonfinite"][0] if o["nonfinite"] else {}
+    ctx.note("JSON and non-finite numbers: to_string writes NaN/inf as `null` (" + str(nf.get("f64_text")) + "); reading that text back is an "
+             "error for a required f64 field and for an AutoCalcParam field, and silently None for an Option field (pump.spectrum_threshold)")
+
+
 def lossy_fields(rt):
     out = []
 
@@ -428,7 +460,7 @@ def cfg_diff(a, b, path=""):
 
 def run(ctx):
     binp = build_harness(ctx)
-    msgs, spans = regen(ctx, ["config_tables", "config_conv", "config_sites"])
+    msgs, spans = regen(ctx, ["config_tables", "config_conv", "config_sites", "config_steps"])
     ctx.cov["translated_spans"] = {k: v for k, v in spans.items() if k.startswith(("pm_type", "polarization", "math::sigfigs", "config::", "utils::from_kelvin"))}
     for m in msgs:
         ctx.proof_failures.append(("Gen/Config*.v", "translator", m))
@@ -440,6 +472,8 @@ def run(ctx):
     if not getattr(ctx, "replay", None):
         nbad += names_checks(ctx, binp)
     nbad += cfg_checks(ctx, binp, spans)
+    if not getattr(ctx, "replay", None):
+        json_float_checks(ctx, binp)
     if (not proved or nbad) and not any(v["found_input"] for v in ctx.violations):
         ctx.log("S5 deep search for a failing input (proof obligations / correspondence are broken)")
         save = ctx.tier
@@ -457,7 +491,10 @@ def run(ctx):
     ctx.cov["clauses"] = {
         "exported fields = physical value rounded to 4 decimals in the field's unit": "proved (generated conversion = unit table; |x - round4 x| <= 0.5e-4) + validated; idler waist position is exported UNROUNDED by the code",
         "second round trip stable": "proved (reals, all oracles) for angles away from the wrap-around + validated to 1e-9",
-        "JSON loss-free": "validated_only (serde/ryu external); FAILS for the unrounded idler waist position",
+        "JSON loss-free": "validated_only (serde_json with float_roundtrip + ryu are external): every finite f64 prints and parses back to the same "
+                          "bits on 1e6 (quick) / 1e7 (thorough) values incl. subnormals, 17-digit values, hard decimal strings, whole configurations; "
+                          "every exported number is a 4-decimal value (proved) except threshold/apodization parameters; NaN/inf are written as null and do "
+                          "not read back (recorded in the evidence)",
         "auto = explicit optimum call": "proved (all oracles: same arguments, same order) + validated bit-exactly",
         "omitted fields take documented defaults": "proved (generated Default impls / serde(default) list vs spec) + validated",
         "every type/polarization/crystal parses from printed form and documented spellings": "proved (finite enumeration over generated regex literals, verified matcher)",
